@@ -457,6 +457,57 @@ Proof.
   replace (0 <=? Z.of_N k)%Z with true by lia. rewrite N2Z.id. reflexivity.
 Qed.
 
+(** * Histories: the tree after any operation sequence is the tree built from the ranges added
+    so far, so every lookup in a history is the lookup on that range set *)
+Lemma state_after_adds ops : forall t,
+  state_after t ops = fold_left (fun t '(k, v) => add_range t k v) (adds_of ops) t.
+Proof.
+  unfold state_after. induction ops as [|o ops IH]; intros t; cbn [fold_left adds_of]; [reflexivity|].
+  destruct o; cbn [state_step fold_left adds_of]; apply IH.
+Qed.
+
+Lemma history_state ops : state_after [] ops = build (adds_of ops).
+Proof. apply state_after_adds. Qed.
+
+Lemma run_ops_app ops1 : forall t ops2,
+  run_ops t (ops1 ++ ops2) = run_ops t ops1 ++ run_ops (state_after t ops1) ops2.
+Proof.
+  unfold state_after. induction ops1 as [|o ops1 IH]; intros t ops2; [reflexivity|].
+  destruct o; cbn [app run_ops fold_left state_step]; rewrite IH; reflexivity.
+Qed.
+
+(** a lookup issued after ANY sequence of operations answers from the ranges added so far *)
+Lemma history_lookup ops p :
+  run_ops [] (ops ++ [SGet p]) = run_ops [] ops ++ [SOLabel (get_label (build (adds_of ops)) p)].
+Proof. rewrite run_ops_app, history_state. reflexivity. Qed.
+
+Lemma build_in ops : forall t x,
+  In x (fold_left (fun t '(k, v) => add_range t k v) ops t) -> In x t \/ In x ops.
+Proof.
+  induction ops as [|[k v] ops IH]; intros t x H; cbn [fold_left] in H; [auto|].
+  destruct (IH _ _ H) as [H1|H1]; [|right; right; exact H1].
+  destruct (add_range_in _ _ _ _ H1) as [->|H2]; [right; left; reflexivity | left; exact H2].
+Qed.
+
+(** ... and that answer is the §12.4.2 label of the current range set (outside the known class) *)
+Lemma history_lookup_ok ops p :
+  (forall k l, In (k, l) (adds_of ops) -> l_start l <= u32_max) -> p <= u32_max ->
+  known_letters_class (build (adds_of ops)) p = false ->
+  spec_label_ok (build (adds_of ops)) p (get_label (state_after [] ops) p) = true.
+Proof.
+  intros Hs Hp Hk. rewrite history_state. apply label_ok; try assumption.
+  - apply build_sorted.
+  - intros k l Hin. destruct (build_in _ _ _ Hin) as [[]|H]. eapply Hs; exact H.
+Qed.
+
+Example history_nonvacuous :
+  let r := {| l_style := SLowerRoman; l_prefix := None; l_start := 1 |} in
+  let d := {| l_style := SDecimal; l_prefix := None; l_start := 1 |} in
+  let a := {| l_style := SUpperLetters; l_prefix := Some [65; 112; 112; 45]; l_start := 1 |} in
+  run_ops [] [SAdd 0 r; SAdd 10 d; SGet 4; SAdd 9 a; SGet 9; SGet 10]
+  = [SOLabel (RLabel [118]); SOLabel (RLabel [65; 112; 112; 45; 65]); SOLabel (RLabel [49])].
+Proof. vm_compute. reflexivity. Qed.
+
 (** * Non-vacuity examples *)
 Example label_ok_nonvacuous :
   let t := build [(0, {| l_style := SLowerRoman; l_prefix := None; l_start := 1 |});
